@@ -291,6 +291,12 @@ func TestHashToField(t *testing.T) {
 		msg, mc := genH2CMsg(t, "msg")
 		dst, dc := genH2CDst(t, "dst", f.pubDST, "h2f")
 		count := rapid.SampledFrom([]int{1, 2, 2, 2, 3, 4}).Draw(t, "count")
+		if rapid.IntRange(1, 20).Draw(t, "manyElems") == 20 {
+			// hash_to_field's count is only bounded by the expander (count*m*L <= 255*b bytes for
+			// expand_message_xmd, i.e. >= 63 elements for every field here): a few larger counts, so that
+			// the expander output spans many hash blocks and is cut into more than 4 elements
+			count = rapid.SampledFrom([]int{5, 8, 16, 17, 32}).Draw(t, "countBig")
+		}
 		params, expName := f.params, "suite"
 		ref := func(msg, dst []byte, n int) ([]byte, error) { return refcurve.ExpandMessageXMD(f.newHash, msg, dst, n) }
 		switch rapid.IntRange(0, 4).Draw(t, "expander") {
